@@ -291,3 +291,57 @@ def c15_scenarios(S, fmt, ch, rate, name, K, step=1, kinds=KINDS, stickies=(0, 1
                 S.add(*prep)
                 S.add("fault %d %s %d" % (i, kind, st))
                 S.add(*ops)
+
+
+def hexs(b):
+    return b.hex() if b else "-"
+
+
+def c13_scenario(S, fmt, ch, rate, rng, count, ids, payloads, late=False, shortbuf=True, cfg=None):
+    """set 'count' chunks (ids cycled from ids, payload lengths from payloads) before the audio, audio, close;
+    re-open: full iteration, by-id iteration, get_data with short buffers; audio read back"""
+    T = gen_core.type_for(fmt)
+    lc = scen.lossless_class(fmt, T)
+    cls, par = lc if lc else ("noise", 0)
+    S.scn(fmt="0x%x" % fmt, ch=ch, T=T, kind="c13", count=count, idlen=min(len(i) for i in ids), late=int(late), **(cfg or {}))
+    S.add("file 1 new", "open 0 vio w 1 %d %d %d" % (fmt, ch, rate))
+    chunks = []
+    for k in range(count):
+        cid = ids[k % len(ids)]
+        dl = payloads[k % len(payloads)]
+        seed = rng.randint(1, 10 ** 6)
+        chunks.append((cid, dl, seed))
+        S.add("setchunk 0 %s %d %d" % (hexs(cid), dl, seed))
+        if k == count // 2:
+            S.add("setstr 0 1 5469746c65")        # other metadata in between
+    S.add("write 0 %s f 32 gen %s %d %d" % (T, cls, rng.randint(1, 10 ** 6), par))
+    if late:
+        S.add("setchunk 0 4c415445 6 5", "errq 0")      # after the audio: must be refused or ignored
+    S.add("write 0 %s f 5 gen %s %d %d" % (T, cls, rng.randint(1, 10 ** 6), par), "close 0")
+    # expected digests for every (payload, visible bytes) the reader will ask for
+    need = set()
+    for cid, dl, seed in chunks:
+        pl = ((dl + 3) // 4) * 4
+        need.add((dl, seed, pl))
+        if shortbuf:
+            for m in (0, 1, 3, pl - 1, pl + 5):
+                if m >= 0:
+                    need.add((dl, seed, min(m, pl)))
+    for dl, seed, m in sorted(need):
+        S.add("chexp %d %d %d" % (dl, seed, m))
+    S.add("open 1 vio r 1 %d %d %d" % (fmt if scen.major(fmt) == scen.RAW else 0, ch, rate))
+    S.add("read 1 %s f 40" % T, "getstr 1 1")
+    # full iteration: one get per position, then next, until NULL (bounded: our chunks + container chunks)
+    S.add("chit 1 0 null")
+    for k in range(count + 12):
+        S.add("chget 1 0 -1", "chnext 1 0")
+    # by id
+    for cid in sorted(set(c for c, _, _ in chunks)) + [b"ZZZZ"]:
+        S.add("chit 1 0 %s" % hexs(cid))
+        n = sum(1 for c, _, _ in chunks if c == cid)
+        for k in range(n + 1):
+            if shortbuf:
+                pl = None
+                S.add("chget 1 0 %d" % rng.choice([0, 1, 3]))
+            S.add("chget 1 0 -1", "chnext 1 0")
+    S.add("chnext 1 0", "chget 1 0 -1", "seek 1 0 0", "read 1 %s f 3" % T, "close 1")
